@@ -64,13 +64,25 @@ def nbnode(nb):
 
 
 LAST_ERROR_SITE = [None]
+REAPPLIED = [None]   # set by run_merge when re-applying the returned decisions does not reproduce the merged notebook
 
 
 def run_merge(b, l, r, args):
     from nbdime.merging.notebooks import merge_notebooks
     try:
         merged, decisions = merge_notebooks(nbnode(b), nbnode(l), nbnode(r), args)
-        return ('ok', plain(merged), plain_decisions(decisions))
+        out = ('ok', plain(merged), plain_decisions(decisions))
+        REAPPLIED[0] = None
+        try:
+            # the decisions returned with the merge describe it: applying them to base again gives the merged notebook
+            from nbdime.merging.decisions import apply_decisions
+            known = known_ids(b, l, r)
+            again = plain(apply_decisions(nbnode(b), decisions))
+            if canon(mask_new_ids(again, known)) != canon(mask_new_ids(out[1], known)):
+                REAPPLIED[0] = again
+        except Exception as e:
+            REAPPLIED[0] = 'raised %s: %s' % (type(e).__name__, str(e)[:120])
+        return out
     except Exception as e:
         import traceback
         tb = traceback.extract_tb(e.__traceback__)
